@@ -226,6 +226,18 @@ pub fn run_pairing(a: &Args, out: &mut Out) {
         }
     }
     if focus == "vector" || focus == "agree" {
+        // one representative of EVERY rescaling class of either group (the random rounds below draw them with unequal weights)
+        for sel in 0..G2_NSEL.max(G1_NSEL) {
+            let (ka, kb) = (pick_scalar(&mut rng, &pool), pick_scalar(&mut rng, &pool));
+            if ka.is_zero() || kb.is_zero() { continue; }
+            let p = if sel < G1_NSEL { g1_rep_class(&mut rng, G1::one() * ka, sel) } else { G1::one() * ka };
+            let q = g2_rep_class(&mut rng, G2::one() * kb, sel);
+            for (j, v) in ENTRY.iter().enumerate() {
+                if focus == "agree" || j == sel % 3 {
+                    pair_ev(out, v, p, q, ka, kb, focus == "vector");
+                }
+            }
+        }
         // G2 representatives whose normalisation computes a product in the 'two subtractions' class of the sum of products
         for (i, w) in hi_w().iter().enumerate() {
             let (ka, kb) = (pick_scalar(&mut rng, &pool), pick_scalar(&mut rng, &pool));
